@@ -11,9 +11,41 @@ def asg_out(d):
     return [[k, v3s(v)] for k, v in d.items()]
 
 
+def json_is_cyclic(j):
+    """own cycle detection on the JSON netlist (iterative three-colour DFS over operands)"""
+    ops = {g[0]: g[2] for g in j['gates']}
+    colour = {}
+    for root in ops:
+        if root in colour:
+            continue
+        stack = [(root, iter(ops[root]))]
+        colour[root] = 1
+        while stack:
+            node, it = stack[-1]
+            for o in it:
+                if o not in ops:
+                    continue
+                if colour.get(o) == 1:
+                    return True
+                if o not in colour:
+                    colour[o] = 1
+                    stack.append((o, iter(ops[o])))
+                    break
+            else:
+                colour[node] = 2
+                stack.pop()
+    return False
+
+
+EVALUATING_OPS = {'eval_full', 'eval_lazy', 'eval_outputs', 'evaluate', 'evaluate_at', 'truth_table', 'gates_tt'}
+
+
 def py_exec(req):
     """Run one request on cirbo itself; same JSON shape as the model driver's answer."""
     op = req['op']
+    if op in EVALUATING_OPS and json_is_cyclic(req['c']):
+        # cirbo's lazy evaluator does not terminate on a cyclic netlist: never hand it one (a check must not hang)
+        return {'err': 'Harness:CyclicCircuit'}
     try:
         c = circ_from_json(req['c'])
         if op in ('eval_full', 'eval_lazy', 'eval_outputs'):
